@@ -37,6 +37,7 @@ def units(tier):
     add(["S2", "r2"], "sym", cancel=0)
     add(["s2", "R1", "R1"], 0, cancel=1, native=True)
     add(["S2", "R2"], "inf")
+    add(["S2", "R1", "R1"], 0, cancel=1, eager=True)
     # a sibling cancels a blocked peer and performs its own operation in the same step
     add(["s2", "R1", "R1"], 0, cancel=1, cancel_by=0)
     add(["s2", "R1", "R1"], 1, cancel=1, cancel_by=0, native=True)
